@@ -155,13 +155,7 @@ Definition gen_cc_sat_func_card (v_instance : py_inst) (v_profile : py_profile) 
 Global Hint Unfold gen_cc_sat_func_card : pygen.
 (* no ZeroDivisionError: every frac(a, b) on the executed path has b != 0 *)
 Definition gen_cc_sat_func_card_safe (v_instance : py_inst) (v_profile : py_profile) (v_ballot : py_ballot) (v_projects : (list py_proj)) : bool :=
-  let v_res := 0 in
-  (let v_res := fold_left (fun (v_res : Q) v_p => 
-    (if ((py_in_ballot v_ballot v_p) && (py_gt (py_ballot_getitem v_ballot v_p) v_res))
-  then let v_res := (py_ballot_getitem v_ballot v_p) in
-  v_res
-  else v_res)) v_projects v_res in
-  true).
+  true.
 Global Hint Unfold gen_cc_sat_func_card_safe : pygen.
 
 (* pabutools/election/satisfaction/positionalsatisfaction.py:76 borda_sat_func
@@ -176,9 +170,7 @@ Definition gen_borda_sat_func (v_ballot : py_ballot) (v_project : py_proj) : Q :
 Global Hint Unfold gen_borda_sat_func : pygen.
 (* no ZeroDivisionError: every frac(a, b) on the executed path has b != 0 *)
 Definition gen_borda_sat_func_safe (v_ballot : py_ballot) (v_project : py_proj) : bool :=
-  (if (py_in_ballot v_ballot v_project)
-  then true
-  else true).
+  true.
 Global Hint Unfold gen_borda_sat_func_safe : pygen.
 
 (* pabutools/tiebreaking.py:136 refuse_to_break_ties
@@ -191,6 +183,472 @@ Global Hint Unfold gen_refuse_to_break_ties : pygen.
 Definition gen_refuse_to_break_ties_safe (v_instance : py_inst) (v_profile : py_aprofile) (v_project : py_proj) : bool :=
   true.
 Global Hint Unfold gen_refuse_to_break_ties_safe : pygen.
+
+(* pabutools/election/instance.py:104 total_cost
+def total_cost(projects: Collection[Project]) -> Numeric:
+    return sum((p.cost for p in projects)) *)
+Definition gen_total_cost (cinst : py_inst) (v_projects : (list py_proj)) : Q :=
+  (py_sum (map (fun v_p => (py_cost cinst v_p)) v_projects)).
+Global Hint Unfold gen_total_cost : pygen.
+(* no ZeroDivisionError: every frac(a, b) on the executed path has b != 0 *)
+Definition gen_total_cost_safe (cinst : py_inst) (v_projects : (list py_proj)) : bool :=
+  true.
+Global Hint Unfold gen_total_cost_safe : pygen.
+
+(* pabutools/election/instance.py:121 max_budget_allocation_cardinality
+def max_budget_allocation_cardinality(projects: Collection[Project], budget_limit: Numeric) -> int:
+    projects_sorted = sorted(projects, key=lambda proj: proj.cost)
+    cost = 0
+    selected = 0
+    for p in projects_sorted:
+        new_total_cost = p.cost + cost
+        if new_total_cost > budget_limit:
+            break
+        cost = new_total_cost
+        selected += 1
+    return selected *)
+Definition gen_max_budget_allocation_cardinality (cinst : py_inst) (v_projects : (list py_proj)) (v_budget_limit : Q) : Q :=
+  let v_projects_sorted := (py_sorted_by_key (fun x1_0 => (py_cost cinst x1_0)) v_projects) in
+  let v_cost := 0 in
+  let v_selected := 0 in
+  (let '(stop2, v_cost, v_selected) := fold_left (fun (st2 : (bool * Q * Q)%type) v_p => let '(stop2, v_cost, v_selected) := st2 in 
+    if stop2 then st2 else let v_new_total_cost := ((py_cost cinst v_p) + v_cost) in
+  (if (py_gt v_new_total_cost v_budget_limit)
+  then (true, v_cost, v_selected)
+  else let v_cost := v_new_total_cost in
+  let v_selected := (v_selected + 1) in
+  (stop2, v_cost, v_selected))) v_projects_sorted (false, v_cost, v_selected) in
+  v_selected).
+Global Hint Unfold gen_max_budget_allocation_cardinality : pygen.
+(* no ZeroDivisionError: every frac(a, b) on the executed path has b != 0 *)
+Definition gen_max_budget_allocation_cardinality_safe (cinst : py_inst) (v_projects : (list py_proj)) (v_budget_limit : Q) : bool :=
+  true.
+Global Hint Unfold gen_max_budget_allocation_cardinality_safe : pygen.
+
+(* pabutools/utils.py:54 powerset
+def powerset(iterable: Iterable) -> Generator:
+    s = list(iterable)
+    return chain.from_iterable((combinations(s, r) for r in range(len(s) + 1))) *)
+Definition gen_powerset (v_iterable : (list py_proj)) : (list (list py_proj)) :=
+  let v_s := v_iterable in
+  (py_chain (map (fun v_r => (py_combinations v_s v_r)) (py_range ((py_len v_s) + 1)))).
+Global Hint Unfold gen_powerset : pygen.
+(* no ZeroDivisionError: every frac(a, b) on the executed path has b != 0 *)
+Definition gen_powerset_safe (v_iterable : (list py_proj)) : bool :=
+  true.
+Global Hint Unfold gen_powerset_safe : pygen.
+
+(* pabutools/utils.py:23 mean_generator
+def mean_generator(generator: Iterable[Numeric] | Iterable[tuple[Numeric, int]]) -> Numeric:
+    n: int = 0
+    mean: Numeric = 0
+    for x in generator:
+        multiplicity: int = 1
+        value: Numeric = x
+        if isinstance(x, tuple):
+            value = x[0]
+            multiplicity = x[1]
+        for i in range(multiplicity):
+            n += 1
+            mean += frac(value - mean, n)
+    return mean *)
+Definition gen_mean_generator (v_generator : (list (Q * Q)%type)) : Q :=
+  let v_n := 0 in
+  let v_mean := 0 in
+  (let '(v_n, v_mean) := fold_left (fun (st1 : (Q * Q)%type) v_x => let '(v_n, v_mean) := st1 in 
+    let v_multiplicity := 1 in
+  let v_value := v_x in
+  let v_value := (fst v_x) in
+  let v_multiplicity := (snd v_x) in
+  (let '(v_n, v_mean) := fold_left (fun (st2 : (Q * Q)%type) v_i => let '(v_n, v_mean) := st2 in 
+    let v_n := (v_n + 1) in
+  let v_mean := (v_mean + (frac (v_value - v_mean) v_n)) in
+  (v_n, v_mean)) (py_range v_multiplicity) (v_n, v_mean) in
+  (v_n, v_mean))) v_generator (v_n, v_mean) in
+  v_mean).
+Global Hint Unfold gen_mean_generator : pygen.
+(* no ZeroDivisionError: every frac(a, b) on the executed path has b != 0 *)
+Definition gen_mean_generator_safe (v_generator : (list (Q * Q)%type)) : bool :=
+  let v_n := 0 in
+  let v_mean := 0 in
+  (let '(ok1, v_n, v_mean) := fold_left (fun (st1 : (bool * Q * Q)%type) v_x => let '(ok1, v_n, v_mean) := st1 in 
+    if ok1 then let v_multiplicity := 1 in
+  let v_value := v_x in
+  let v_value := (fst v_x) in
+  let v_multiplicity := (snd v_x) in
+  (let '(ok2, v_n, v_mean) := fold_left (fun (st2 : (bool * Q * Q)%type) v_i => let '(ok2, v_n, v_mean) := st2 in 
+    if ok2 then let v_n := (v_n + 1) in
+  (if (py_truth v_n) then let v_mean := (v_mean + (frac (v_value - v_mean) v_n)) in
+  (ok2, v_n, v_mean) else (false, v_n, v_mean)) else st2) (py_range v_multiplicity) (true, v_n, v_mean) in
+  (if ok2 then (ok1, v_n, v_mean) else (false, v_n, v_mean))) else st1) v_generator (true, v_n, v_mean) in
+  (if ok1 then true else false)).
+Global Hint Unfold gen_mean_generator_safe : pygen.
+
+(* pabutools/utils.py:23 mean_generator
+def mean_generator(generator: Iterable[Numeric] | Iterable[tuple[Numeric, int]]) -> Numeric:
+    n: int = 0
+    mean: Numeric = 0
+    for x in generator:
+        multiplicity: int = 1
+        value: Numeric = x
+        if isinstance(x, tuple):
+            value = x[0]
+            multiplicity = x[1]
+        for i in range(multiplicity):
+            n += 1
+            mean += frac(value - mean, n)
+    return mean *)
+Definition gen_mean_generator_plain (v_generator : (list Q)) : Q :=
+  let v_n := 0 in
+  let v_mean := 0 in
+  (let '(v_n, v_mean) := fold_left (fun (st1 : (Q * Q)%type) v_x => let '(v_n, v_mean) := st1 in 
+    let v_multiplicity := 1 in
+  let v_value := v_x in
+  (let '(v_n, v_mean) := fold_left (fun (st2 : (Q * Q)%type) v_i => let '(v_n, v_mean) := st2 in 
+    let v_n := (v_n + 1) in
+  let v_mean := (v_mean + (frac (v_value - v_mean) v_n)) in
+  (v_n, v_mean)) (py_range v_multiplicity) (v_n, v_mean) in
+  (v_n, v_mean))) v_generator (v_n, v_mean) in
+  v_mean).
+Global Hint Unfold gen_mean_generator_plain : pygen.
+(* no ZeroDivisionError: every frac(a, b) on the executed path has b != 0 *)
+Definition gen_mean_generator_plain_safe (v_generator : (list Q)) : bool :=
+  let v_n := 0 in
+  let v_mean := 0 in
+  (let '(ok1, v_n, v_mean) := fold_left (fun (st1 : (bool * Q * Q)%type) v_x => let '(ok1, v_n, v_mean) := st1 in 
+    if ok1 then let v_multiplicity := 1 in
+  let v_value := v_x in
+  (let '(ok2, v_n, v_mean) := fold_left (fun (st2 : (bool * Q * Q)%type) v_i => let '(ok2, v_n, v_mean) := st2 in 
+    if ok2 then let v_n := (v_n + 1) in
+  (if (py_truth v_n) then let v_mean := (v_mean + (frac (v_value - v_mean) v_n)) in
+  (ok2, v_n, v_mean) else (false, v_n, v_mean)) else st2) (py_range v_multiplicity) (true, v_n, v_mean) in
+  (if ok2 then (ok1, v_n, v_mean) else (false, v_n, v_mean))) else st1) v_generator (true, v_n, v_mean) in
+  (if ok1 then true else false)).
+Global Hint Unfold gen_mean_generator_plain_safe : pygen.
+
+(* pabutools/utils.py:72 gini_coefficient
+def gini_coefficient(values: Iterable[Numeric]) -> Numeric:
+    all_nul: bool = True
+    num_values: int = 0
+    for v in values:
+        if v < 0:
+            raise ValueError('Negative values not supported by gini coefficient implementation.')
+        if all_nul and v > 0:
+            all_nul = False
+        num_values += 1
+    if all_nul:
+        return 0
+    sorted_values: list[Numeric] = sorted(values)
+    total_cum_sum: Numeric = 0
+    for i, v in enumerate(sorted_values):
+        total_cum_sum += v * (num_values - i)
+    return frac(num_values + 1 - frac(2 * total_cum_sum, sum(values)), num_values) *)
+Definition gen_gini_coefficient (v_values : (list Q)) : (option Q) :=
+  let v_all_nul := true in
+  let v_num_values := 0 in
+  (let '(ret1, v_all_nul, v_num_values) := fold_left (fun (st1 : ((option (option Q)) * bool * Q)%type) v_v => let '(ret1, v_all_nul, v_num_values) := st1 in 
+    match ret1 with Some _ => st1 | None => (if (py_lt v_v 0)
+  then ((Some (None)), v_all_nul, v_num_values)
+  else (if (v_all_nul && (py_gt v_v 0))
+  then let v_all_nul := false in
+  let v_num_values := (v_num_values + 1) in
+  (ret1, v_all_nul, v_num_values)
+  else let v_num_values := (v_num_values + 1) in
+  (ret1, v_all_nul, v_num_values))) end) v_values ((@None (option Q)), v_all_nul, v_num_values) in
+  match ret1 with Some r1 => r1 | None => (if v_all_nul
+  then (Some 0)
+  else let v_sorted_values := (py_sorted_nums v_values) in
+  let v_total_cum_sum := 0 in
+  (let v_total_cum_sum := fold_left (fun (v_total_cum_sum : Q) it2 => let '(v_i, v_v) := it2 in 
+    let v_total_cum_sum := (v_total_cum_sum + (v_v * (v_num_values - v_i))) in
+  v_total_cum_sum) (py_enumerate v_sorted_values) v_total_cum_sum in
+  (Some (frac ((v_num_values + 1) - (frac (2 * v_total_cum_sum) (py_sum v_values))) v_num_values)))) end).
+Global Hint Unfold gen_gini_coefficient : pygen.
+(* no ZeroDivisionError: every frac(a, b) on the executed path has b != 0 *)
+Definition gen_gini_coefficient_safe (v_values : (list Q)) : bool :=
+  let v_all_nul := true in
+  let v_num_values := 0 in
+  (let '(ret1, v_all_nul, v_num_values) := fold_left (fun (st1 : ((option bool) * bool * Q)%type) v_v => let '(ret1, v_all_nul, v_num_values) := st1 in 
+    match ret1 with Some _ => st1 | None => (if (py_lt v_v 0)
+  then ((Some (true)), v_all_nul, v_num_values)
+  else (if (v_all_nul && (py_gt v_v 0))
+  then let v_all_nul := false in
+  let v_num_values := (v_num_values + 1) in
+  (ret1, v_all_nul, v_num_values)
+  else let v_num_values := (v_num_values + 1) in
+  (ret1, v_all_nul, v_num_values))) end) v_values ((@None bool), v_all_nul, v_num_values) in
+  match ret1 with Some r1 => r1 | None => (if v_all_nul
+  then true
+  else let v_sorted_values := (py_sorted_nums v_values) in
+  let v_total_cum_sum := 0 in
+  (let v_total_cum_sum := fold_left (fun (v_total_cum_sum : Q) it3 => let '(v_i, v_v) := it3 in 
+    let v_total_cum_sum := (v_total_cum_sum + (v_v * (v_num_values - v_i))) in
+  v_total_cum_sum) (py_enumerate v_sorted_values) v_total_cum_sum in
+  (py_truth (py_sum v_values)) && (py_truth v_num_values))) end).
+Global Hint Unfold gen_gini_coefficient_safe : pygen.
+
+(* pabutools/analysis/votersatisfaction.py:20 avg_satisfaction
+def avg_satisfaction(instance: Instance, profile: AbstractProfile, budget_allocation: Collection[Project], sat_class: type[SatisfactionMeasure]) -> Numeric:
+    return mean_generator(((sat_class(instance, profile, ballot).sat(budget_allocation), profile.multiplicity(ballot)) for ballot in profile)) *)
+Definition gen_avg_satisfaction (v_instance : py_inst) (v_profile : py_profile) (v_budget_allocation : (list py_proj)) (v_sat_class : py_satclass) : Q :=
+  (gen_mean_generator (map (fun v_ballot => (((v_sat_class v_instance v_profile v_ballot) v_budget_allocation), (py_multiplicity v_profile v_ballot))) (py_profile_iter v_profile))).
+Global Hint Unfold gen_avg_satisfaction : pygen.
+(* no ZeroDivisionError: every frac(a, b) on the executed path has b != 0 *)
+Definition gen_avg_satisfaction_safe (v_instance : py_inst) (v_profile : py_profile) (v_budget_allocation : (list py_proj)) (v_sat_class : py_satclass) : bool :=
+  (gen_mean_generator_safe  (map (fun v_ballot => (((v_sat_class v_instance v_profile v_ballot) v_budget_allocation), (py_multiplicity v_profile v_ballot))) (py_profile_iter v_profile))).
+Global Hint Unfold gen_avg_satisfaction_safe : pygen.
+
+(* pabutools/analysis/votersatisfaction.py:55 percent_non_empty_handed
+def percent_non_empty_handed(instance: Instance, profile: AbstractProfile, budget_allocation: Collection[Project]) -> Numeric:
+    return avg_satisfaction(instance, profile, budget_allocation, CC_Sat) *)
+Definition gen_percent_non_empty_handed (cls_CC_Sat : py_satclass) (v_instance : py_inst) (v_profile : py_profile) (v_budget_allocation : (list py_proj)) : Q :=
+  (gen_avg_satisfaction v_instance v_profile v_budget_allocation cls_CC_Sat).
+Global Hint Unfold gen_percent_non_empty_handed : pygen.
+(* the satisfaction classes the function names (its cls_ parameters, in that order) *)
+Definition gen_percent_non_empty_handed_classes : list string := ["CC_Sat"%string].
+(* no ZeroDivisionError: every frac(a, b) on the executed path has b != 0 *)
+Definition gen_percent_non_empty_handed_safe (cls_CC_Sat : py_satclass) (v_instance : py_inst) (v_profile : py_profile) (v_budget_allocation : (list py_proj)) : bool :=
+  (gen_avg_satisfaction_safe  v_instance v_profile v_budget_allocation cls_CC_Sat).
+Global Hint Unfold gen_percent_non_empty_handed_safe : pygen.
+
+(* pabutools/analysis/votersatisfaction.py:81 percent_positive_satisfaction
+def percent_positive_satisfaction(profile: AbstractProfile, budget_allocation: Collection[Project], sat_class: type[SatisfactionMeasure]) -> Numeric:
+    sat_profile = profile.as_sat_profile(sat_class)
+    num_pos_sat = 0
+    for sat in sat_profile:
+        if sat.sat(budget_allocation) > 0:
+            num_pos_sat += sat_profile.multiplicity(sat)
+    return frac(num_pos_sat, profile.num_ballots()) *)
+Definition gen_percent_positive_satisfaction (cinst : py_inst) (v_profile : py_profile) (v_budget_allocation : (list py_proj)) (v_sat_class : py_satclass) : Q :=
+  let v_sat_profile := (py_as_sat_profile cinst v_profile v_sat_class) in
+  let v_num_pos_sat := 0 in
+  (let v_num_pos_sat := fold_left (fun (v_num_pos_sat : Q) v_sat => 
+    (if (py_gt (fst v_sat v_budget_allocation) 0)
+  then let v_num_pos_sat := (v_num_pos_sat + (py_satprofile_multiplicity v_sat_profile v_sat)) in
+  v_num_pos_sat
+  else v_num_pos_sat)) (py_satprofile_iter v_sat_profile) v_num_pos_sat in
+  (frac v_num_pos_sat (py_num_ballots v_profile))).
+Global Hint Unfold gen_percent_positive_satisfaction : pygen.
+(* no ZeroDivisionError: every frac(a, b) on the executed path has b != 0 *)
+Definition gen_percent_positive_satisfaction_safe (cinst : py_inst) (v_profile : py_profile) (v_budget_allocation : (list py_proj)) (v_sat_class : py_satclass) : bool :=
+  let v_sat_profile := (py_as_sat_profile cinst v_profile v_sat_class) in
+  let v_num_pos_sat := 0 in
+  (let v_num_pos_sat := fold_left (fun (v_num_pos_sat : Q) v_sat => 
+    (if (py_gt (fst v_sat v_budget_allocation) 0)
+  then let v_num_pos_sat := (v_num_pos_sat + (py_satprofile_multiplicity v_sat_profile v_sat)) in
+  v_num_pos_sat
+  else v_num_pos_sat)) (py_satprofile_iter v_sat_profile) v_num_pos_sat in
+  (py_truth (py_num_ballots v_profile))).
+Global Hint Unfold gen_percent_positive_satisfaction_safe : pygen.
+
+(* pabutools/analysis/votersatisfaction.py:112 gini_coefficient_of_satisfaction
+def gini_coefficient_of_satisfaction(instance: Instance, profile: AbstractProfile, budget_allocation: Collection[Project], sat_class: type[SatisfactionMeasure], invert: bool=False) -> Numeric:
+    voter_satisfactions = []
+    for ballot in profile:
+        voter_satisfaction = frac(sat_class(instance, profile, ballot).sat(budget_allocation))
+        for i in range(profile.multiplicity(ballot)):
+            voter_satisfactions.append(voter_satisfaction)
+    if invert:
+        return 1 - gini_coefficient(np.array(voter_satisfactions))
+    return gini_coefficient(np.array(voter_satisfactions)) *)
+Definition gen_gini_coefficient_of_satisfaction (v_instance : py_inst) (v_profile : py_profile) (v_budget_allocation : (list py_proj)) (v_sat_class : py_satclass) (v_invert : bool) : (option Q) :=
+  let v_voter_satisfactions := (@nil Q) in
+  (let v_voter_satisfactions := fold_left (fun (v_voter_satisfactions : (list Q)) v_ballot => 
+    let v_voter_satisfaction := ((v_sat_class v_instance v_profile v_ballot) v_budget_allocation) in
+  (let v_voter_satisfactions := fold_left (fun (v_voter_satisfactions : (list Q)) v_i => 
+    let v_voter_satisfactions := (v_voter_satisfactions ++ [v_voter_satisfaction]) in
+  v_voter_satisfactions) (py_range (py_multiplicity v_profile v_ballot)) v_voter_satisfactions in
+  v_voter_satisfactions)) (py_profile_iter v_profile) v_voter_satisfactions in
+  (if v_invert
+  then match (gen_gini_coefficient v_voter_satisfactions) with Some r3 => (Some (1 - r3)) | None => None end
+  else match (gen_gini_coefficient v_voter_satisfactions) with Some r4 => (Some r4) | None => None end)).
+Global Hint Unfold gen_gini_coefficient_of_satisfaction : pygen.
+(* no ZeroDivisionError: every frac(a, b) on the executed path has b != 0 *)
+Definition gen_gini_coefficient_of_satisfaction_safe (v_instance : py_inst) (v_profile : py_profile) (v_budget_allocation : (list py_proj)) (v_sat_class : py_satclass) (v_invert : bool) : bool :=
+  let v_voter_satisfactions := (@nil Q) in
+  (let v_voter_satisfactions := fold_left (fun (v_voter_satisfactions : (list Q)) v_ballot => 
+    let v_voter_satisfaction := ((v_sat_class v_instance v_profile v_ballot) v_budget_allocation) in
+  (let v_voter_satisfactions := fold_left (fun (v_voter_satisfactions : (list Q)) v_i => 
+    let v_voter_satisfactions := (v_voter_satisfactions ++ [v_voter_satisfaction]) in
+  v_voter_satisfactions) (py_range (py_multiplicity v_profile v_ballot)) v_voter_satisfactions in
+  v_voter_satisfactions)) (py_profile_iter v_profile) v_voter_satisfactions in
+  (if v_invert
+  then match (gen_gini_coefficient v_voter_satisfactions) with Some r6 => (gen_gini_coefficient_safe  v_voter_satisfactions) | None => true end
+  else match (gen_gini_coefficient v_voter_satisfactions) with Some r7 => (gen_gini_coefficient_safe  v_voter_satisfactions) | None => true end)).
+Global Hint Unfold gen_gini_coefficient_of_satisfaction_safe : pygen.
+
+(* pabutools/analysis/votersatisfaction.py:153 satisfaction_histogram
+def satisfaction_histogram(instance: Instance, profile: AbstractProfile, budget_allocation: Collection[Project], sat_class: type[SatisfactionMeasure], max_satisfaction: Numeric, num_bins: int=21) -> list[Numeric]:
+    if isinstance(profile, MultiProfile):
+        sat_profile = SatisfactionMultiProfile(instance=instance, multiprofile=profile, sat_class=sat_class)
+    else:
+        sat_profile = SatisfactionMultiProfile(instance=instance, profile=profile, sat_class=sat_class)
+    hist_data = [0.0 for _ in range(num_bins)]
+    for ballot in sat_profile:
+        satisfaction = ballot.sat(budget_allocation)
+        if satisfaction >= max_satisfaction:
+            hist_data[-1] += sat_profile.multiplicity(ballot)
+        else:
+            hist_data[math.ceil(satisfaction * (num_bins - 1) / max_satisfaction)] += sat_profile.multiplicity(ballot)
+    for i in range(len(hist_data)):
+        hist_data[i] /= profile.num_ballots()
+    return hist_data *)
+Definition gen_satisfaction_histogram : py_untranslated := Untranslated "unknown name MultiProfile".
+
+(* pabutools/analysis/profileproperties.py:16 avg_ballot_length
+def avg_ballot_length(instance: Instance, profile: AbstractProfile) -> Numeric:
+    return mean_generator(((len(ballot), profile.multiplicity(ballot)) for ballot in profile)) *)
+Definition gen_avg_ballot_length (v_instance : py_inst) (v_profile : py_profile) : Q :=
+  (gen_mean_generator (map (fun v_ballot => ((py_len_pballot v_ballot), (py_multiplicity v_profile v_ballot))) (py_profile_iter v_profile))).
+Global Hint Unfold gen_avg_ballot_length : pygen.
+(* no ZeroDivisionError: every frac(a, b) on the executed path has b != 0 *)
+Definition gen_avg_ballot_length_safe (v_instance : py_inst) (v_profile : py_profile) : bool :=
+  (gen_mean_generator_safe  (map (fun v_ballot => ((py_len_pballot v_ballot), (py_multiplicity v_profile v_ballot))) (py_profile_iter v_profile))).
+Global Hint Unfold gen_avg_ballot_length_safe : pygen.
+
+(* pabutools/analysis/profileproperties.py:38 median_ballot_length
+def median_ballot_length(instance: Instance, profile: AbstractProfile) -> Numeric:
+    if profile.num_ballots() == 0:
+        return 0
+    ballot_lengths = np.zeros(profile.num_ballots())
+    index = 0
+    for ballot in profile:
+        for j in range(profile.multiplicity(ballot)):
+            ballot_lengths[index] = len(ballot)
+            index += 1
+    return float(np.median(ballot_lengths)) *)
+Definition gen_median_ballot_length : py_untranslated := Untranslated "call of np.zeros outside the fragment".
+
+(* pabutools/analysis/profileproperties.py:66 avg_ballot_cost
+def avg_ballot_cost(instance: Instance, profile: AbstractProfile) -> Numeric:
+    return mean_generator(((total_cost(ballot), profile.multiplicity(ballot)) for ballot in profile)) *)
+Definition gen_avg_ballot_cost (v_instance : py_inst) (v_profile : py_profile) : Q :=
+  (gen_mean_generator (map (fun v_ballot => ((py_total_cost v_instance (py_pballot_iter v_ballot)), (py_multiplicity v_profile v_ballot))) (py_profile_iter v_profile))).
+Global Hint Unfold gen_avg_ballot_cost : pygen.
+(* no ZeroDivisionError: every frac(a, b) on the executed path has b != 0 *)
+Definition gen_avg_ballot_cost_safe (v_instance : py_inst) (v_profile : py_profile) : bool :=
+  (gen_mean_generator_safe  (map (fun v_ballot => ((py_total_cost v_instance (py_pballot_iter v_ballot)), (py_multiplicity v_profile v_ballot))) (py_profile_iter v_profile))).
+Global Hint Unfold gen_avg_ballot_cost_safe : pygen.
+
+(* pabutools/analysis/profileproperties.py:88 median_ballot_cost
+def median_ballot_cost(instance: Instance, profile: AbstractProfile) -> Numeric:
+    if profile.num_ballots() == 0:
+        return 0
+    ballot_costs = np.zeros(profile.num_ballots())
+    index = 0
+    for ballot in profile:
+        for j in range(profile.multiplicity(ballot)):
+            ballot_costs[index] = total_cost(ballot)
+            index += 1
+    return np.median(ballot_costs) *)
+Definition gen_median_ballot_cost : py_untranslated := Untranslated "call of np.zeros outside the fragment".
+
+(* pabutools/analysis/profileproperties.py:116 avg_approval_score
+def avg_approval_score(instance: Instance, profile: AbstractApprovalProfile) -> Numeric:
+    return mean_generator([profile.approval_score(project) for project in instance]) *)
+Definition gen_avg_approval_score (v_instance : py_inst) (v_profile : py_profile) : Q :=
+  (gen_mean_generator_plain (map (fun v_project => (py_profile_approval_score v_profile v_project)) (py_instance_iter v_instance))).
+Global Hint Unfold gen_avg_approval_score : pygen.
+(* no ZeroDivisionError: every frac(a, b) on the executed path has b != 0 *)
+Definition gen_avg_approval_score_safe (v_instance : py_inst) (v_profile : py_profile) : bool :=
+  (gen_mean_generator_plain_safe  (map (fun v_project => (py_profile_approval_score v_profile v_project)) (py_instance_iter v_instance))).
+Global Hint Unfold gen_avg_approval_score_safe : pygen.
+
+(* pabutools/analysis/profileproperties.py:136 median_approval_score
+def median_approval_score(instance: Instance, profile: AbstractApprovalProfile) -> Numeric:
+    if len(instance) == 0:
+        return 0
+    return float(np.median([frac(profile.approval_score(project)) for project in instance])) *)
+Definition gen_median_approval_score (v_instance : py_inst) (v_profile : py_profile) : Q :=
+  (if (py_eq (py_len_instance v_instance) 0)
+  then 0
+  else (py_float (py_np_median (map (fun v_project => (py_profile_approval_score v_profile v_project)) (py_instance_iter v_instance))))).
+Global Hint Unfold gen_median_approval_score : pygen.
+(* no ZeroDivisionError: every frac(a, b) on the executed path has b != 0 *)
+Definition gen_median_approval_score_safe (v_instance : py_inst) (v_profile : py_profile) : bool :=
+  true.
+Global Hint Unfold gen_median_approval_score_safe : pygen.
+
+(* pabutools/analysis/profileproperties.py:162 avg_total_score
+def avg_total_score(instance: Instance, profile: AbstractCardinalProfile) -> Numeric:
+    return mean_generator((profile.total_score(project) for project in instance)) *)
+Definition gen_avg_total_score (v_instance : py_inst) (v_profile : py_profile) : Q :=
+  (gen_mean_generator_plain (map (fun v_project => (py_profile_total_score v_profile v_project)) (py_instance_iter v_instance))).
+Global Hint Unfold gen_avg_total_score : pygen.
+(* no ZeroDivisionError: every frac(a, b) on the executed path has b != 0 *)
+Definition gen_avg_total_score_safe (v_instance : py_inst) (v_profile : py_profile) : bool :=
+  (gen_mean_generator_plain_safe  (map (fun v_project => (py_profile_total_score v_profile v_project)) (py_instance_iter v_instance))).
+Global Hint Unfold gen_avg_total_score_safe : pygen.
+
+(* pabutools/analysis/profileproperties.py:182 median_total_score
+def median_total_score(instance: Instance, profile: AbstractCardinalProfile) -> Numeric:
+    if len(instance) == 0:
+        return 0
+    return float(np.median([frac(profile.total_score(project)) for project in instance])) *)
+Definition gen_median_total_score (v_instance : py_inst) (v_profile : py_profile) : Q :=
+  (if (py_eq (py_len_instance v_instance) 0)
+  then 0
+  else (py_float (py_np_median (map (fun v_project => (py_profile_total_score v_profile v_project)) (py_instance_iter v_instance))))).
+Global Hint Unfold gen_median_total_score : pygen.
+(* no ZeroDivisionError: every frac(a, b) on the executed path has b != 0 *)
+Definition gen_median_total_score_safe (v_instance : py_inst) (v_profile : py_profile) : bool :=
+  true.
+Global Hint Unfold gen_median_total_score_safe : pygen.
+
+(* pabutools/analysis/instanceproperties.py:10 sum_project_cost
+def sum_project_cost(instance: Instance) -> Numeric:
+    return total_cost(instance) *)
+Definition gen_sum_project_cost (v_instance : py_inst) : Q :=
+  (py_total_cost v_instance (py_instance_iter v_instance)).
+Global Hint Unfold gen_sum_project_cost : pygen.
+(* no ZeroDivisionError: every frac(a, b) on the executed path has b != 0 *)
+Definition gen_sum_project_cost_safe (v_instance : py_inst) : bool :=
+  true.
+Global Hint Unfold gen_sum_project_cost_safe : pygen.
+
+(* pabutools/analysis/instanceproperties.py:28 funding_scarcity
+def funding_scarcity(instance: Instance) -> Numeric:
+    if instance.budget_limit > 0:
+        return frac(total_cost(instance), instance.budget_limit)
+    raise ValueError('funding scarcity can only be calculated for instances with budget limit > 0') *)
+Definition gen_funding_scarcity (v_instance : py_inst) : (option Q) :=
+  (if (py_gt (py_budget_limit v_instance) 0)
+  then (Some (frac (py_total_cost v_instance (py_instance_iter v_instance)) (py_budget_limit v_instance)))
+  else None).
+Global Hint Unfold gen_funding_scarcity : pygen.
+(* no ZeroDivisionError: every frac(a, b) on the executed path has b != 0 *)
+Definition gen_funding_scarcity_safe (v_instance : py_inst) : bool :=
+  (if (py_gt (py_budget_limit v_instance) 0)
+  then (py_truth (py_budget_limit v_instance))
+  else true).
+Global Hint Unfold gen_funding_scarcity_safe : pygen.
+
+(* pabutools/analysis/instanceproperties.py:51 avg_project_cost
+def avg_project_cost(instance: Instance) -> Numeric:
+    return frac(total_cost(instance), len(instance)) *)
+Definition gen_avg_project_cost (v_instance : py_inst) : Q :=
+  (frac (py_total_cost v_instance (py_instance_iter v_instance)) (py_len_instance v_instance)).
+Global Hint Unfold gen_avg_project_cost : pygen.
+(* no ZeroDivisionError: every frac(a, b) on the executed path has b != 0 *)
+Definition gen_avg_project_cost_safe (v_instance : py_inst) : bool :=
+  (py_truth (py_len_instance v_instance)).
+Global Hint Unfold gen_avg_project_cost_safe : pygen.
+
+(* pabutools/analysis/instanceproperties.py:69 median_project_cost
+def median_project_cost(instance: Instance) -> Numeric:
+    return float(np.median([project.cost for project in instance])) *)
+Definition gen_median_project_cost (v_instance : py_inst) : Q :=
+  (py_float (py_np_median (map (fun v_project => (py_cost v_instance v_project)) (py_instance_iter v_instance)))).
+Global Hint Unfold gen_median_project_cost : pygen.
+(* no ZeroDivisionError: every frac(a, b) on the executed path has b != 0 *)
+Definition gen_median_project_cost_safe (v_instance : py_inst) : bool :=
+  true.
+Global Hint Unfold gen_median_project_cost_safe : pygen.
+
+(* pabutools/analysis/instanceproperties.py:87 std_dev_project_cost
+def std_dev_project_cost(instance: Instance) -> Numeric:
+    return float(np.std([project.cost for project in instance], dtype=np.float64)) *)
+Definition gen_std_dev_project_cost : py_untranslated := Untranslated "unknown name np".
 
 (* pabutools/election/satisfaction/additivesatisfaction.py:82 AdditiveSatisfaction.preprocessing
 def preprocessing(self, instance: Instance, profile: AbstractProfile, ballot: AbstractBallot) -> dict:
@@ -340,6 +798,92 @@ def untie(self, instance: Instance, profile: AbstractProfile, projects: Collecti
 Definition gen_TieBreakingRule_untie_key (self_func : (py_inst -> py_aprofile -> py_proj -> Q)) (v_instance : py_inst) (v_profile : py_aprofile) (v_projects : (list py_proj)) (v_key : (py_proj -> py_proj)) : (option py_proj) :=
   (py_index (gen_TieBreakingRule_order_key self_func v_instance v_profile v_projects v_key) 0%nat).
 Global Hint Unfold gen_TieBreakingRule_untie_key : pygen.
+
+(* pabutools/election/instance.py:396 Instance.is_feasible
+def is_feasible(self, projects: Collection[Project]) -> bool:
+    return total_cost(projects) <= self.budget_limit *)
+Definition gen_Instance_is_feasible (v_self : py_inst) (v_projects : (list py_proj)) : bool :=
+  (py_le (py_total_cost v_self v_projects) (py_budget_limit v_self)).
+Global Hint Unfold gen_Instance_is_feasible : pygen.
+(* no ZeroDivisionError: every frac(a, b) on the executed path has b != 0 *)
+Definition gen_Instance_is_feasible_safe (v_self : py_inst) (v_projects : (list py_proj)) : bool :=
+  true.
+Global Hint Unfold gen_Instance_is_feasible_safe : pygen.
+
+(* pabutools/election/instance.py:412 Instance.is_exhaustive
+def is_exhaustive(self, projects: Collection[Project], available_projects: Collection[Project] | None=None) -> bool:
+    if available_projects is None:
+        available_projects = self
+    cost = total_cost(projects)
+    for p in available_projects:
+        if p not in projects and p.cost + cost <= self.budget_limit:
+            return False
+    return True *)
+Definition gen_Instance_is_exhaustive (v_self : py_inst) (v_projects : (list py_proj)) : bool :=
+  let v_available_projects := v_self in
+  let v_cost := (py_total_cost v_self v_projects) in
+  (let ret1 := fold_left (fun (ret1 : (option bool)) v_p => 
+    match ret1 with Some _ => ret1 | None => (if ((negb (py_in_list v_projects v_p)) && (py_le ((py_cost v_self v_p) + v_cost) (py_budget_limit v_self)))
+  then (Some (false))
+  else ret1) end) (py_instance_iter v_available_projects) (@None bool) in
+  match ret1 with Some r1 => r1 | None => true end).
+Global Hint Unfold gen_Instance_is_exhaustive : pygen.
+(* no ZeroDivisionError: every frac(a, b) on the executed path has b != 0 *)
+Definition gen_Instance_is_exhaustive_safe (v_self : py_inst) (v_projects : (list py_proj)) : bool :=
+  true.
+Global Hint Unfold gen_Instance_is_exhaustive_safe : pygen.
+
+(* pabutools/election/instance.py:412 Instance.is_exhaustive
+def is_exhaustive(self, projects: Collection[Project], available_projects: Collection[Project] | None=None) -> bool:
+    if available_projects is None:
+        available_projects = self
+    cost = total_cost(projects)
+    for p in available_projects:
+        if p not in projects and p.cost + cost <= self.budget_limit:
+            return False
+    return True *)
+Definition gen_Instance_is_exhaustive_avail (v_self : py_inst) (v_projects : (list py_proj)) (v_available_projects : (list py_proj)) : bool :=
+  let v_cost := (py_total_cost v_self v_projects) in
+  (let ret1 := fold_left (fun (ret1 : (option bool)) v_p => 
+    match ret1 with Some _ => ret1 | None => (if ((negb (py_in_list v_projects v_p)) && (py_le ((py_cost v_self v_p) + v_cost) (py_budget_limit v_self)))
+  then (Some (false))
+  else ret1) end) v_available_projects (@None bool) in
+  match ret1 with Some r1 => r1 | None => true end).
+Global Hint Unfold gen_Instance_is_exhaustive_avail : pygen.
+(* no ZeroDivisionError: every frac(a, b) on the executed path has b != 0 *)
+Definition gen_Instance_is_exhaustive_avail_safe (v_self : py_inst) (v_projects : (list py_proj)) (v_available_projects : (list py_proj)) : bool :=
+  true.
+Global Hint Unfold gen_Instance_is_exhaustive_avail_safe : pygen.
+
+(* pabutools/election/instance.py:382 Instance.is_trivial
+def is_trivial(self) -> bool:
+    return total_cost(self) <= self.budget_limit or self.budget_limit < min((p.cost for p in self)) *)
+Definition gen_Instance_is_trivial (v_self : py_inst) : bool :=
+  ((py_le (py_total_cost v_self (py_instance_iter v_self)) (py_budget_limit v_self)) || (py_lt (py_budget_limit v_self) (py_min_list (map (fun v_p => (py_cost v_self v_p)) (py_instance_iter v_self)) 0))).
+Global Hint Unfold gen_Instance_is_trivial : pygen.
+(* no ZeroDivisionError: every frac(a, b) on the executed path has b != 0 *)
+Definition gen_Instance_is_trivial_safe (v_self : py_inst) : bool :=
+  (negb ((negb ((py_le (py_total_cost v_self (py_instance_iter v_self)) (py_budget_limit v_self))))) || (negb (py_is_empty (map (fun v_p => (py_cost v_self v_p)) (py_instance_iter v_self))))).
+Global Hint Unfold gen_Instance_is_trivial_safe : pygen.
+
+(* pabutools/election/instance.py:368 Instance.budget_allocations
+def budget_allocations(self) -> Generator[Collection[Project]]:
+    for b in powerset(self):
+        if self.is_feasible(b):
+            yield b *)
+Definition gen_Instance_budget_allocations (v_self : py_inst) : (list (list py_proj)) :=
+  let yielded := (@nil (list py_proj)) in
+  (let yielded := fold_left (fun (yielded : (list (list py_proj))) v_b => 
+    (if (gen_Instance_is_feasible v_self v_b)
+  then let yielded := (yielded ++ [v_b]) in
+  yielded
+  else yielded)) (gen_powerset (py_instance_iter v_self)) yielded in
+  yielded).
+Global Hint Unfold gen_Instance_budget_allocations : pygen.
+(* no ZeroDivisionError: every frac(a, b) on the executed path has b != 0 *)
+Definition gen_Instance_budget_allocations_safe (v_self : py_inst) : bool :=
+  true.
+Global Hint Unfold gen_Instance_budget_allocations_safe : pygen.
 
 (* pabutools/election/satisfaction/additivesatisfaction.py:187 Cardinality_Sat.__init__: Cardinality_Sat(instance, profile, ballot).sat -- AdditiveSatisfaction.__init__ chain executed symbolically *)
 Definition gen_Cardinality_Sat_sat (v_instance : py_inst) (v_profile : py_profile) (v_ballot : py_ballot) (v_projects : (list py_proj)) : Q :=
@@ -569,3 +1113,9 @@ Definition gen_wiring : list (string * list py_wire) :=
    ("Relative_Cost_Sat"%string, gen_wiring_Relative_Cost_Sat)].
 Definition gen_tie_rules : list string := ["lexico_tie_breaking"%string; "app_score_tie_breaking"%string; "min_cost_tie_breaking"%string; "max_cost_tie_breaking"%string; "refuse_tie_breaking"%string].
 Definition gen_untranslated : list string := [].
+Definition gen_untranslated_sat : list string := [].
+Definition gen_untranslated_tie : list string := [].
+Definition gen_untranslated_inst : list string := [].
+Definition gen_untranslated_stats : list string := [].
+(* float-only statistics that are outside the fragment (correspondence only) *)
+Definition gen_correspondence_only : list string := ["gen_satisfaction_histogram"%string; "gen_median_ballot_length"%string; "gen_median_ballot_cost"%string; "gen_std_dev_project_cost"%string].
